@@ -224,6 +224,17 @@ fn judge(scn: &SumScenario, acc: &mut Acc) -> Option<Violation> {
             }
             for v in 0..n_val {
                 let lv = label_values(ctx, gc, v);
+                // the constant tests agree with the guards' meaning
+                for (i, (g, _)) in entries.iter().enumerate() {
+                    let holds = gc.verif_eval(*g, &lv);
+                    if (gc.is_false(*g) && holds) || (gc.is_true(*g) && !holds) {
+                        return Some(mk(
+                            "GuardConstantTestWrong",
+                            what,
+                            format!("op #{opi} {what}: entry {i}: is_false={} is_true={} but under valuation {v:#b} the guard evaluates to {holds}", gc.is_false(*g), gc.is_true(*g)),
+                        ));
+                    }
+                }
                 let holding: Vec<usize> = (0..entries.len()).filter(|i| gc.verif_eval(entries[*i].0, &lv)).collect();
                 if holding.len() > 1 {
                     return Some(mk(
